@@ -270,6 +270,10 @@ func (w *World) VerifyWith(u *Unit, classes map[string][]string) (res *UnitResul
 		for _, cl := range u.Spec.Requires {
 			st.assume(env.evalBool(cl.Expr))
 		}
+		for _, cl := range u.Spec.Assumes {
+			st.assume(env.evalBool(cl.Expr))
+			e.note("entry assumption of %s (not required of callers): %s", u.Name, cl.Text)
+		}
 	}
 	u.entry = st.snapshot()
 	res.ModelTerms = x.modelTerms(u)
